@@ -33,7 +33,8 @@ def meta(tier, seed):
         "bounds": {"settings": SETTINGS, "seeds": 3 if tier == "thorough" else 1,
                    "stored": {"quick": "d=1 n<=4; d=2 n<=3 (n=3: 3 assignments); d=3 n<=2",
                               "thorough": "d=1 n<=5; d=2 n<=3 with all arm assignments; d=3 n<=2; three seeds"}[tier],
-                   "grid": "{-1,0,1}^d incl. the zero vector", "n_jobs": [1, 2], "policies": LPS},
+                   "grid": "{-1,0,1}^d incl. the zero vector", "n_jobs": [1, 2], "policies": LPS,
+                   "earlier_life": "half of the histories are preceded by fit(other rows) + a query on the same bandit"},
         "assumptions": ["a projection whose exact value is non-zero but below 1e-12*|x||p| is a don't-care (skipped, counted)",
                         "n_jobs=2 runs through the joblib model (isolated hashing tasks, shared-memory inserts)"],
     }
@@ -111,8 +112,14 @@ def queries_for(pts, grid):
     return qs, kinds
 
 
-def judge(cfg, ln, hist_rows, comp, qs, kinds, acc=None):
+def judge(cfg, ln, hist_rows, comp, qs, kinds, acc=None, prefit=False):
     history = []
+    if prefit:
+        # an earlier life of the same bandit: fit on other rows and answer a query, then the real history starts
+        # with fit again (hyperplanes are redrawn; nothing derived from the old ones may survive)
+        d = len(hist_rows[0][1])
+        history.append(["fit", [1, 2], [1.0, 0.0], [[1] * d, [-1] + [1] * (d - 1)]])
+        history.append(["predict_expectations", [[1] * d, [0] * d]])
     for i, (a, b) in enumerate(comp):
         rows = hist_rows[a:b]
         history.append(["fit" if i == 0 else "partial_fit", [r[0] for r in rows], [r[2] for r in rows],
@@ -186,12 +193,14 @@ def run_shard(shard):
                 n_jobs = 1 + (ci + sum(map(abs, pts[0]))) % 2          # both values meet every composition
                 cfg = {"arms": [1, 2], "lp": A.LPS[ln], "np": ["LSHNearest", {"n_dimensions": nd, "n_tables": nt}],
                        "seed": shard["bseed"], "n_jobs": n_jobs, "backend": None}
-                msgs, history = judge(cfg, ln, hist_rows, comp, qs, kinds, acc)
+                prefit = (ci + len(pts)) % 2 == 1 and asg == assignments(n, tier)[0]
+                msgs, history = judge(cfg, ln, hist_rows, comp, qs, kinds, acc, prefit)
                 acc.traces += 1
                 acc.state((nd, nt, shard["bseed"], ln, str(hist_rows), ci))
                 if msgs:
                     acc.violation("%s nd=%d nt=%d d=%d n=%d comp=%d jobs=%d" % (ln, nd, nt, d, n, len(comp), n_jobs),
-                                  {"cfg": cfg, "ln": ln, "rows": hist_rows, "comp": comp, "queries": qs, "kinds": kinds},
+                                  {"cfg": cfg, "ln": ln, "rows": hist_rows, "comp": comp, "queries": qs, "kinds": kinds,
+                                   "prefit": prefit},
                                   msgs[0])
                 elif n >= 2 and ci == 1 and len(acc.samples) < 2:
                     acc.sample({"cfg": cfg, "history": history, "queries": qs[:6]})
@@ -200,5 +209,5 @@ def run_shard(shard):
 
 def replay(w):
     rows = [(r[0], r[1], r[2]) for r in w["rows"]]
-    msgs, _ = judge(w["cfg"], w["ln"], rows, [tuple(c) for c in w["comp"]], w["queries"], w["kinds"])
+    msgs, _ = judge(w["cfg"], w["ln"], rows, [tuple(c) for c in w["comp"]], w["queries"], w["kinds"], prefit=w.get("prefit", False))
     return msgs
